@@ -1014,6 +1014,26 @@ def kop_expr(op, args, inline=False, method=False):
     return Expression(op, args, inline=inline, method=method)
 
 
+def _same_constant(a, b) -> bool:
+    """
+    True if two constants are the same code: same (canonical) type and same value.
+    1, 1.0 and True are equal in Python but print as different SQL and Python source; nan is the same constant as nan.
+    """
+    if isinstance(a, Value):
+        a = a.value
+    if isinstance(b, Value):
+        b = b.value
+    if isinstance(a, PreTerm) or isinstance(b, PreTerm):
+        return isinstance(a, PreTerm) and isinstance(b, PreTerm) and a.is_equal(b)
+    if data_algebra.util.map_type_to_canonical(
+        type(a)
+    ) != data_algebra.util.map_type_to_canonical(type(b)):
+        return False
+    if a == b:
+        return True
+    return (a != a) and (b != b)  # both nan
+
+
 class Value(Term):
     """
     Class for holding constants.
@@ -1042,7 +1062,7 @@ class Value(Term):
         # can't use == as that builds a larger expression
         if not isinstance(other, Value):
             return False
-        return self.value == other.value
+        return _same_constant(self.value, other.value)
 
     def act_on(self, arg, *, expr_walker: ExpressionWalker):
         """
@@ -1096,7 +1116,10 @@ class ListTerm(PreTerm):
         # can't use == as that builds a larger expression
         if not isinstance(other, ListTerm):
             return False
-        return self.value == other.value
+        # element by element: == between Value objects builds an expression, which is always truthy
+        if len(self.value) != len(other.value):
+            return False
+        return all(_same_constant(a, b) for a, b in zip(self.value, other.value))
 
     def act_on(self, arg, *, expr_walker: ExpressionWalker):
         """
@@ -1160,7 +1183,17 @@ class DictTerm(PreTerm):
         # can't use == as that builds a larger expression
         if not isinstance(other, DictTerm):
             return False
-        return self.value == other.value
+        if len(self.value) != len(other.value):
+            return False
+        other_keys = {k: k for k in other.value.keys()}
+        for k, v in self.value.items():
+            if k not in other_keys:
+                return False
+            if not _same_constant(k, other_keys[k]):
+                return False
+            if not _same_constant(v, other.value[k]):
+                return False
+        return True
 
     def act_on(self, arg, *, expr_walker: ExpressionWalker):
         """
